@@ -7,10 +7,10 @@ PID = "C20"
 
 # statement grammars: every statement ends at a terminator, so a line holds a whole number of statements
 STATEMENTS = [
-    "(rule S (seq (act 1 (cap 2 (plus (cls any c 1)))) (seq (chr 3b) (cut))))",                       # ident ;
+    "(rule S (seq (act 1 (cap 2 (plus (cls any c 1)))) (seq (chr 3b) (seq (eol) (cut)))))",                       # ident ; eol
     "(rule S (seq (cap 1 (plus (cls any c 16))) (seq (star (seq (chr 2b) (cap 2 (plus (cls any c 16))))) (seq (eol) (cut)))))",   # n(+n)* eol
-    "(rule S (alt (seq (str 6c6574) (seq (cap 3 (plus (cls any c 1))) (chr 3b))) (seq (act 4 (plus (cls any c 16))) (chr 3b))))",  # let x; | 12;
-    "(rule S (seq (act 5 (list (plus (cls any c 1)) (chr 2c))) (seq (chr 2e) (accept))))",             # a,b,c.
+    "(rule S (seq (alt (seq (str 6c6574) (seq (cap 3 (plus (cls any c 1))) (chr 3b))) (seq (act 4 (plus (cls any c 16))) (chr 3b))) (eol)))",  # (let x; | 12;) eol
+    "(rule S (seq (act 5 (list (plus (cls any c 1)) (chr 2c))) (seq (chr 2e) (seq (eol) (accept)))))",             # a,b,c. eol
 ]
 
 
@@ -35,7 +35,8 @@ def gen_cases(tier, seed):
             if rnd.random() < 0.12:
                 t = t[:-1] + rnd.choice(["?", ""])           # a malformed statement
             lines.append((t + "\n").encode().hex())
-        gram = "(grammar (space default) %s (start S) (lines %s) %s)" % (STATEMENTS[k], " ".join(lines), " ".join("(input %s)" % l for l in lines))
+        # blanks only: with the default rule the line terminator itself is implicit whitespace and the parser rightly asks for more
+        gram = "(grammar (space (star (chr 20))) %s (start S) (lines %s) %s)" % (STATEMENTS[k], " ".join(lines), " ".join("(input %s)" % l for l in lines))
         cases.append(gram)
     return cases
 
